@@ -283,6 +283,55 @@ PROPS["C03"] = {
     "technique": "Lean 4 invariant proof over a global small-step system built from the programs that are differentially checked against the real client; monitors for ownership on real histories",
 }
 
+_SIM_COMPONENTS = ["harness/app/sim_test.go: N REAL daemons (real state handlers stateFirstRun/Manager/Candidate/Lost/Maintenance, real healthChecker / recoveryChecker / replicationLagChecker / stateFileHandler loops) in one virtual-time bubble over fake MySQL servers (wire protocol, replication, semi-sync acknowledgement, slave_net_timeout, restart configuration of the project's images) and an interface-level fake coordination service with sessions, ephemerals and the manager lock; per-daemon network identity (partitions), process death at a chosen external call, client workload that tries to write on every node each 0.5 s and places acknowledged transactions on exactly wait_for_slave_count replicas",
+                   "MysyncModel/Proto/Cluster.lean (verdict predicates canonical / ackedPreserved, evaluated by the Lean replay on the ground truth of the fake servers; GTID containment is the verified one of C13)"]
+_SIM_TRUSTED = ["T4 fake MySQL semantics incl. semi-sync acknowledgement rule and restart state; fake coordination service at interface level (the real zkDCS is covered by C15 / C03; it cannot be used here because mysync holds the Cluster mutex across coordination calls and synctest does not advance virtual time while a goroutine waits for a mutex)",
+                "the main loop of App.Run is replicated in the harness (lock file, signal handler, NewZookeeper's TCP set-up cannot run in the bubble)",
+                "virtual time: one schedule per (seed, configuration); real goroutine interleavings inside a tick are those the Go scheduler produces in the bubble"]
+
+PROPS["C02"] = {
+    "lean": ["MysyncProofs.C02"],
+    "go": [("internal/app", "^TestVerifSim$")],
+    "level": "proof",
+    "components": _SIM_COMPONENTS + ["MysyncProofs/C02.lean composes C04 (a,b), C12 and C01 into no_acked_loss_at_promotion"],
+    "trusted": _SIM_TRUSTED,
+    "rule": "fault grid: {crash of a MySQL server, network isolation of a host, death of a mysync process, loss of the coordination service by one host or by all, manual switchover to / from, no fault} x target host (master more often) x injection offset 0-5 s across the tick / health-check cycle x duration {3 s, 20 s, 90 s, until healing} x 2-4 HA nodes x with/without a cascade replica x wait count 1-2 x failover on/off x failover delay {0,10,30 s} x both semi-sync adjustment orders x with/without a lagging replica (asked to take over in a third of the requests); 40 s warm-up, fault, 6 virtual minutes of healing. distinct = distinct run; non-trivial = a fault or a request was injected",
+    "assumptions": ["MySQL semi-sync time-out effectively infinite, wait_no_slave ON, AFTER_SYNC (the project's configuration)", "single fault per run (the property's budget)",
+                    "the theorem is stated for a published list that does not change between the acknowledgement and the promotion"],
+    "min_lines": 50,
+    "level_text": "PARTIAL. Proved: every acknowledged transaction is executed by the promoted node (composition of C04, C12, C01 for any list size / counts / sets); the canonical predicate implies a single writable reachable HA node equal to the recorded master and all other reachable HA nodes read-only replicas of it; with two faults the quorum refuses. Decided on the real daemons by simulation: return to the canonical state after healing, acknowledged set on the final master, never two acknowledging nodes in one round, no flip-back of the acknowledging node.",
+    "level_note": "Convergence (fairness of the real loops, time-outs) and the end-to-end statement are NOT a theorem: no composed model of N daemons was built; the simulation explores one schedule per configuration and seed. Trusted: Lean kernel, fakes (T4), harness copy of Run's loop.",
+    "technique": "Lean 4 proof of the safety composition + simulation of the real daemons with Lean-evaluated verdict predicates",
+}
+
+PROPS["C07"] = {
+    "lean": ["MysyncProofs.C07"],
+    "go": [("internal/app", "^TestVerifC07$")],
+    "level": "proof",
+    "components": _SIM_COMPONENTS + ["MysyncModel/App/Switchover.lean + SwitchLifecycle.lean (the procedure as an ordered step list over oracle outcomes; a crash is a prefix)"],
+    "trusted": _SIM_TRUSTED + ["process death = from the chosen external call on, nothing the process sends has any effect (its MySQL statements hang, its coordination session is cut and expires after the session time-out)"],
+    "rule": "for 7 base scenarios (manual switchover to / from on 2-4 nodes, automatic failover after a master crash / isolation on 2-4 nodes): a dry run counts the external calls (SQL statements and coordination writes) the managing daemon makes between taking the request up and its terminal record; then the manager is killed after call i for every 12th i (thorough: every i), once with the same host restarted and once with another host taking over; healing 6 virtual minutes. distinct = distinct run; non-trivial = always",
+    "assumptions": ["the successor has a working coordination service and servers (the property's 'next manager')"],
+    "min_lines": 40,
+    "level_text": "PARTIAL. Proved on the procedure model for every crash point (prefix) and all oracle outcomes: the recorded master is written last and only after the new master is writable; a crash before that leaves the old master key; a lost lock stops the procedure; at most one node is made writable; the request stays in place until a terminal record (hypothesis: the result keys do not already hold this very record). Decided on the real daemons by simulation at the sampled crash points: the successor finishes or rejects the request, the cluster is canonical, no acknowledged transaction is missing.",
+    "level_note": "'The procedure is re-runnable from every intermediate topology and ends canonical' is NOT a theorem (it needs the world model of every intermediate topology); it is checked by the crash-point simulation. Trusted as for C02.",
+    "technique": "Lean 4 proof over the procedure model with crash = prefix + crash-point simulation of the real daemons",
+}
+
+PROPS["C20"] = {
+    "lean": ["MysyncProofs.C20"],
+    "go": [("internal/app", "^TestVerifC20$"), ("internal/app", "^TestVerifSim$")],
+    "level": "proof",
+    "components": _SIM_COMPONENTS + ["explicit panic outcomes in Manager / Switchover / Recovery / ActiveNodes / Cascade models (each tied to the code by its own differential check, which compares the panic outcome too)"],
+    "trusted": _SIM_TRUSTED + ["panic sites are identified by file:line of the first mysync frame below the panic"],
+    "rule": "21 kinds of ill-formed contents / hostile environments applied to a running 2-4 node cluster (recorded master / active list / stream_from / request naming an unregistered host, hosts registered or removed while running, unparsable values in switch / master / active_nodes / maintenance / health / last_switch, a replica that is no replica, a master that reports a replication source, every statement failing / hanging, coordination service down), alone and together with one fault of the C02 catalogue; every loop of every daemon runs under recover(); goroutines before/after each run and open connections per server are counted; plus all runs of the C02 grid. distinct = distinct run; non-trivial = always",
+    "assumptions": [],
+    "min_lines": 40,
+    "level_text": "PARTIAL. Proved on the models: the exact conditions under which a manager iteration, the switchover procedure, the recovery check and the membership classification can die (none of them on inputs whose views are complete; never for an unregistered recorded master). Five crash sites reachable from contents the property names were found on the pinned tree and repaired (fix: commits, known_findings.json). Decided on the real daemons: no recovered panic, no goroutine left behind, no accumulating connections in any simulated run.",
+    "level_note": "Data races are NOT decided: no executable model of the logic exhibits one (DESIGN.md §not applicable in part); goroutine and connection accounting is runtime behaviour observed by the simulation only.",
+    "technique": "Lean 4 characterisation theorems of the modelled panic sites + chaos simulation of the real daemons under recover()",
+}
+
 _todo = "machinery for this property is not built yet in this round; planned per DESIGN.md §7/§10 (no claim is made until its check exists)"
 NOT_APPLICABLE = {("C%02d" % i): _todo for i in range(1, 21)}
 
